@@ -49,11 +49,11 @@ func fragSources(c *core.Ctx) []fragSrc {
 		base = append(base, fragSrc{prefix: o.Prefix, src: tgen.File(c.Rng.Fork(), o)})
 	}
 	var extra []fragSrc
-	for i, n := 0, c.N(16, 240); i < n; i++ {
+	for i, n := 0, c.N(30, 300); i < n; i++ {
 		p := fmt.Sprintf("H%04d", i)
 		extra = append(extra, fragSrc{prefix: p, src: handlerFile(c.Rng.Fork(), p), handlers: true})
 	}
-	for i, n := 0, c.N(5, 60); i < n; i++ {
+	for i, n := 0, c.N(9, 72); i < n; i++ {
 		p := fmt.Sprintf("L%04d", i)
 		// sizes around every power of two from 1 KiB to 64 KiB (times 1..3: several boundaries per run); the biggest ones are
 		// rarer and use fewer shifted copies
@@ -67,7 +67,7 @@ func fragSources(c *core.Ctx) []fragSrc {
 		} else {
 			size = size*(1+c.Rng.Intn(3)) + c.Rng.Intn(64)
 		}
-		unp := i%5 == 4
+		unp := i%3 == 2 // every third file also has characters the Go literal spells as \u escapes
 		extra = append(extra, fragSrc{prefix: p, src: longRunFile(c.Rng.Fork(), p, size, shifts, unp), long: true, noTie: unp})
 	}
 	// spread the extra files evenly
